@@ -9,7 +9,7 @@ from concurrent.futures import ThreadPoolExecutor
 
 VERIF = os.path.dirname(os.path.dirname(os.path.abspath(__file__)))
 REPO = os.environ.get('VERIF_REPO', '/repo')
-BUILD = os.path.join(VERIF, 'build' if REPO == '/repo' else 'build_alt')     # VERIF_REPO=<scratch worktree> is used by tools/seedtest.py only; it gets its own cache
+BUILD = os.path.join(VERIF, 'build' if REPO == '/repo' else ('build_alt' if os.path.basename(REPO.rstrip('/')) == 'vf_seedrepo' else 'build_alt_' + os.path.basename(REPO.rstrip('/'))))     # VERIF_REPO=<scratch worktree> is used by tools/seedtest.py only; it gets its own cache
 GUARD = 'MUSCLE_VERIF_HOOKS'
 
 COMMON_DEFS = ['-DMUSCLE_ENABLE_ZLIB_ENCODING', '-DMUSCLE_NO_EXCEPTIONS', '-D' + GUARD]
